@@ -122,6 +122,14 @@ impl<'a> BTreeIterator<'a> {
 	fn iter_inner(&mut self, direction: IterDirection) -> IterResult {
 		let col = self.col;
 
+		// Nothing precedes the start position and nothing follows the end position,
+		// wherever the data currently sits (the commit overlay already answers this way).
+		match (&self.last_key, direction) {
+			(LastKey::Start, IterDirection::Backward) | (LastKey::End, IterDirection::Forward) =>
+				return Ok(None),
+			_ => (),
+		}
+
 		loop {
 			// Lock log over function call (no btree struct change).
 			let commit_overlay = self.commit_overlay.read();
